@@ -95,23 +95,30 @@ theorem run_creates (inl : Tbl → List Fkc) : ∀ (ts : List Tbl) (db : DB),
           simp only [h1, h2, cond_false] at h
           omega
 
-theorem run_adds : ∀ (rem : List FkRef) (db : DB),
-    (∀ r ∈ rem, r.1 ∈ db.tables ∧ r.2.ref ∈ db.tables) →
+theorem run_adds : ∀ (rem : List FkRef) (db : DB), rem.Nodup →
+    (∀ r ∈ rem, r.1 ∈ db.tables ∧ r.2.ref ∈ db.tables ∧ r ∉ db.fks) →
     run db (rem.map (fun r => Op.addConstraint r.1 r.2)) =
       some ⟨db.tables, db.fks ++ rem, db.idx⟩ := by
   intro rem
   induction rem with
-  | nil => intro db _; simp [run_nil]
+  | nil => intro db _ _; simp [run_nil]
   | cons r rs ih =>
-    intro db h
+    intro db hn h
+    rw [List.nodup_cons] at hn
     rw [List.map_cons, run_cons]
     have h1 : db.tables.contains r.1 = true := by simpa using (h r List.mem_cons_self).1
-    have h2 : db.tables.contains r.2.ref = true := by simpa using (h r List.mem_cons_self).2
-    simp only [exec, h1, h2, Bool.and_self, if_true, Option.bind_some]
-    rw [ih]
+    have h2 : db.tables.contains r.2.ref = true := by simpa using (h r List.mem_cons_self).2.1
+    have h3 : db.fks.contains (r.1, r.2) = false := by simpa using (h r List.mem_cons_self).2.2
+    simp only [exec, h1, h2, h3, Bool.and_self, Bool.not_false, if_true, Option.bind_some]
+    rw [ih _ hn.2]
     · simp [List.append_assoc]
     · intro r' hr'
-      exact h r' (List.mem_cons_of_mem _ hr')
+      have := h r' (List.mem_cons_of_mem _ hr')
+      refine ⟨this.1, this.2.1, ?_⟩
+      simp only [List.mem_append, List.mem_singleton, not_or]
+      refine ⟨this.2.2, fun he => hn.1 ?_⟩
+      have : r' = r := he
+      exact this ▸ hr'
 
 /-! ### DROP -/
 
